@@ -298,6 +298,20 @@ def g_dsa_verify(ctx: Ctx) -> Op:
             return Op("dsa.recover_pub_keys_", "recovered-key-infinity", lambda: dsa.recover_pub_keys_(h, sig_inf))
         kid = (K[1] & 1) ^ ch.draw(2, "dsav.inf.otherkid")
         return Op("dsa.recover_pub_key_", "recovered-key-infinity" if kid == K[1] & 1 else "valid", lambda: dsa.recover_pub_key_(kid, h, sig_inf), note=f"key_id={kid}")
+    if kind in ("recover_pub_keys_", "recover_pub_key_") and d == -1 and ch.chance(1, 3, "dsav.small-r"):
+        # a signature nobody made: r small enough that r + n is a field element too, so the j = 1 candidates
+        # (x = r + n) exist. The window is r < p - n ~ 1.27 * 2^128; drawn at both ends of it and across 2^128
+        top = H.P - N
+        while True:
+            r_small = ch.pick([1 + ch.draw(1 << 16, "dsav.r.tiny"), (1 << 128) - 1 - ch.draw(1 << 20, "dsav.r.below"), (1 << 128) + ch.draw(top - (1 << 128), "dsav.r.above"), top - 1 - ch.draw(1 << 20, "dsav.r.top")], "dsav.r.class")
+            if any(pow(x**3 + 7, (H.P - 1) // 2, H.P) == 1 for x in (r_small, r_small + N)):
+                break
+        sig_small = dsa.Sig(r_small, sig.s, check_validity=False)
+        cls_small = "r-below-2^128" if r_small < (1 << 128) else "r-in-j1-window-above-2^128"
+        if kind == "recover_pub_keys_":
+            return Op("dsa.recover_pub_keys_", cls_small, lambda: dsa.recover_pub_keys_(h, sig_small))
+        kid = ch.draw(4, "dsav.kid")
+        return Op("dsa.recover_pub_key_", cls_small, lambda: dsa.recover_pub_key_(kid, h, sig_small), note=f"key_id={kid}")
     if kind == "recover_pub_keys_":
         return Op("dsa.recover_pub_keys_", _cls(sc, mc), lambda: dsa.recover_pub_keys_(m, sig_arg))
     if kind == "recover_pub_key_":
